@@ -1250,18 +1250,14 @@ class Epoch(object):
             cl = h % 30
             dl = (11 * cl + 3) % 30
             jj += 354 if dl < 19 else 355
-        if jj > 354:
+        while jj > 354:
+            # The civil year may extend over the ends of two moslem years
             cl = h % 30
             dl = (11 * cl + 3) % 30
-            if dl < 19:
-                jj -= 354
-                h += 1
-            else:
-                jj -= 355
-                h += 1
-            if jj == 0:
-                jj = 355
-                h -= 1
+            if dl > 18 and jj == 355:
+                break  # Last day of a leap year (355 days)
+            jj -= 354 if dl < 19 else 355
+            h += 1
         # Now, let's convert DOY jj to month and day
         if jj == 355:
             m = 12
